@@ -200,7 +200,7 @@ def classify(v):
 def run(res, only=None):
     cases = common.rotate(specs(res.tier), res.seed)
     out = common.pmap(run_case, cases, chunk=1)
-    for c, r in zip(cases, out):
+    for c, r in common.good(cases, out, res):
         cnt = r["cnt"]
         res.add("traces_validated_against_impl", cnt["executions"])
         res.add("transitions", cnt["transitions"])
